@@ -28,6 +28,11 @@ CLAIMS = {
   technique=TECH + "loop-free full-domain harnesses per entry point of bind.c, OS hooks and bitmap predicates as contract stubs over ghost facts",
   text="For all 16 binding entry points of bind.c, every flag word, every policy value, every hook table (each hook independently present or missing) and every relation between the user's set and the topology/complete sets: invalid flags, invalid policy, empty or not-included sets give -1/EINVAL before any OS hook is called; a hook only ever receives the user's set or, when that covers the topology set, the complete set, with flags and policy unchanged; PROCESS/THREAD dispatch and the ENOSYS fallback are exact; no applicable hook gives -1/ENOSYS; temporary nodesets are freed on every path; on a topology that is not this system every hook is a dummy, set-calls return 0 without OS call and get-calls return the complete set (policy MIXED). Loop-free code over a full symbolic domain: complete.",
   note="Trusted: the abstract set model (bind.model.h) stands for the bitmap functions verified under C03 and for hwloc_cpuset_to/from_nodeset (C09, not claimed). The live-system sentences (kernel round trip, load restores the binding) are OS behaviour and not decided."),
+ "C15": dict(
+  category="other", design_ref="DESIGN.md section 3 (C15)",
+  technique=TECH + "bounded: plain harnesses on the real cpukinds.c with the bitmap dependency replaced by exact set operations on an 8-PU universe, loops unwound",
+  text="BOUNDED stand-in (not counted as proved): hwloc_internal_cpukinds_register keeps the kinds a partition -- non-empty, pairwise disjoint, distinct cpuset objects, union = previous union plus the registered set, at most 2N+1 kinds inside the allocated array -- from every state with N <= 3 kinds satisfying that invariant, for every new cpuset, efficiency and flag word; empty cpuset / unknown flags give EINVAL and change nothing. hwloc_cpukinds_get_by_cpuset returns the index of the kind containing the set, EXDEV iff the set straddles kinds or is partly covered, ENOENT iff it touches none, EINVAL for flags/NULL/empty. The universe has one PU per Venn region of 3 disjoint kinds and a new set, so every emptiness pattern the code can distinguish is covered. Not decided: info accumulation, ranking/efficiencies, restrict/dup/XML interleavings, the public wrapper hwloc_cpukinds_register.",
+  note="Trusted: the 8-PU executable model of and/andnot/iszero/compare_inclusion/alloc/free (the real ones are verified under C03); bounded in the number of kinds (<= 3) and unwinding 8; allocation failures of hwloc_bitmap_alloc are not modelled."),
  "C19": dict(
   category="proof", design_ref="DESIGN.md section 3 (C19)",
   technique=TECH + "DFCC frame contracts assigns(errno) on the guarded entry points of topology.c / distances.c / diff.c; callees after the guard replaced by never-called contracts",
@@ -54,7 +59,6 @@ NOT_APPLICABLE = {
  "C12": "deep copy and absence of sharing over the whole heap; no ghost heap / separation predicates in CBMC contracts",
  "C13": "distances add/get/restrict/dup interleavings over lists and object arrays: only argument-rejection prefixes would be in reach (not built)",
  "C14": "memory attribute store/lookup semantics over nested arrays and histories: only the best-of selection loops would be in reach (not built)",
- "C15": "cpukinds partition invariant: planned over abstract cpusets (DESIGN.md section 3) but not built",
  "C16": "diff build/apply/reverse over two unbounded trees; only the flag/EPERM prefix of diff_apply is covered (under C19)",
  "C17": "thread-safety: CBMC code contracts have no concurrency semantics",
  "C18": "snapshot discovery: file-system contents, component selection and fault sequences are outside any function contract",
